@@ -589,3 +589,31 @@ func init() {
 	intrinsics[zz+"Skip"] = func(st *pstate, fr *frame, fn *ssa.Function, args []value) value { return nil }
 	intrinsics[zz+"FreezeNative"] = func(st *pstate, fr *frame, fn *ssa.Function, args []value) value { return nil }
 }
+
+func init() {
+	intrinsics[zz+"MaxInt"] = func(st *pstate, fr *frame, fn *ssa.Function, args []value) value {
+		_, as := args[0].(symInt)
+		_, bs := args[1].(symInt)
+		if !as && !bs {
+			a, b := args[0].(int), args[1].(int)
+			if a > b {
+				return a
+			}
+			return b
+		}
+		a, b := intTerm(args[0]), intTerm(args[1])
+		return symInt{st.name("(ite (bvsge "+a+" "+b+") "+a+" "+b+")", 64), types.Int}
+	}
+	intrinsics[zz+"IteInt"] = func(st *pstate, fr *frame, fn *ssa.Function, args []value) value {
+		if c, ok := args[0].(bool); ok {
+			if c {
+				return args[1]
+			}
+			return args[2]
+		}
+		if !isSym(args[1]) && !isSym(args[2]) && args[1] == args[2] {
+			return args[1]
+		}
+		return symInt{st.name(tIte(boolTerm(args[0]), intTerm(args[1]), intTerm(args[2])), 64), types.Int}
+	}
+}
